@@ -30,7 +30,8 @@ prop("C04", opts={"memprop": "C04", "shadowprop": "C04", "afprop": "C04"},
      nontrivial=[["notify_add>=3", "add_existing_path"], ["notify_add>=3", "change_not_owner"], ["notify_add>=3", "remove_not_owner"], ["notify_add>=3", "setcall_wrong_kind"], ["notify_add>=3", "set_on_fetchonly"]],
      required_probes=["add_existing_path", "change_not_owner", "remove_not_owner", "change_on_method", "setcall_wrong_kind", "set_on_fetchonly", "empty_path", "get"])
 
-prop("C05", also=["C07/hygiene/.*"],
+prop("C05", also=["C07/hygiene/.*", "C01/.*", "C03/.*", "C02/.*", "C04/wrong-response", "C04/missing-response"],   # "...and disturbs nobody else": in runs whose stimulus is the end of connections, the other peers' fetch, routing and response expectations are C05's
+
      mix=[("c05", "default", 3), ("c05", "small", 1), ("c05", "batch1", 1), ("c11x", "wbuf", 1), ("c11x", "default", 0.5)],
      quick_mix=[("c05", "default", 2), ("c11x", "wbuf", 1)],
      quick_s=25, thorough_s=600, opts={"memprop": "C05"},
@@ -57,9 +58,9 @@ prop("C02", opts={"memprop": "C02"}, also=["C03/unexpected-response", "C03/missi
      nontrivial=[["ledger_response>=3"], ["batch_len>=3"]],
      required_probes=["ledger_response", "no_id_request", "response_as_request", "id_fraction", "id_beyond_int", "batch_len>=3", "routed_seen_by_owner"])
 
-prop("C06", also=["C07/hygiene/.*"],
-     mix=[("c06", "default", 3), ("c06", "small", 2), ("c02", "default", 1), ("c06", "batch1", 1)],
-     quick_mix=[("c06", "default", 2), ("c06", "small", 1)],
+prop("C06", also=["C07/hygiene/.*"], opts={"memprop": "C06"},
+     mix=[("c06", "default", 3), ("c06", "small", 2), ("c02", "default", 1), ("c06", "batch1", 1), ("c04", "default", 1), ("c08", "default", 1), ("c01", "small", 0.5)],
+     quick_mix=[("c06", "default", 2), ("c06", "small", 1), ("c04", "default", 0.7), ("c08", "default", 0.7)],
      quick_s=25, thorough_s=600,
      rule="structured hostile input (JSON-RPC member shapes, long names, HTTP request lines and headers, WebSocket frames over the whole header space, length prefixes around every limit) and unstructured bytes on all three "
           "endpoints under random segmentation, read caps and event batching; oracle: no sanitizer report, no crash, no hang, descriptor hygiene, canary served afterwards. non-trivial: >=1 message reached the dispatcher or frame parser; distinct by trace hash",
@@ -157,14 +158,14 @@ prop("C11", also=["C07/hygiene/.*"],
      nontrivial=[["fault:would_block", "notify_add"], ["fault:write_error", "notify_add"], ["fault:sockerr", "notify_add"], ["fault:accept_failed:103"], ["fault:accept_failed:24"], ["routed_to_faulty_owner"]],
      required_probes=["fault:would_block", "fault:write_error", "fault:sockerr", "fault:stall", "routed_to_faulty_owner", "faulty_peer_dropped_by_daemon", "canary_ok", "notify_change", "owner_replied"])
 
-prop("C15", kind="c15", level="fault_enumeration", corpus=46,
+prop("C15", kind="c15", level="fault_enumeration", corpus=48,
      mix=[("c15", "default", 1), ("c15", "small", 1), ("c15", "wsmall", 1), ("c15", "batch1", 1)],
      quick_mix=[("c15", "default", 1)],
      random_mix=[("base+af", "default", 2), ("c03+af", "default", 1), ("c05+af", "default", 1), ("c01+af", "small", 1), ("c04+af", "batch1", 1), ("c16+af", "default", 0.5), ("c08+af", "default", 1), ("c14+af", "default", 0.5), ("c15h", "heapcap", 3)],
      random_mix_quick=[("base+af", "default", 1), ("c04+af", "default", 1), ("c15h", "heapcap", 1.5)],
      random_quick_s=25, random_thorough_s=500,
      quick_s=100, thorough_s=1800,
-     rule="fault enumeration: a fixed corpus of 46 short scenarios (40 of 4-14 operations each, drawn once from the base, fetch, routing, connection-end, access-control, WebSocket, HTTP, matcher, deadline and namespace generators: every request type, "
+     rule="fault enumeration: a fixed corpus of 48 short scenarios (two of them authenticate / passwd sequences with the credential file loaded; 40 of 4-14 operations each, drawn once from the base, fetch, routing, connection-end, access-control, WebSocket, HTTP, matcher, deadline and namespace generators: every request type, "
           "raw/unix/WebSocket connect and teardown, failed handshakes, routed requests with reply, timeout and disconnects, batches, authentication) is executed once to count its allocations N, then once for every k in 1..N with exactly the k-th "
           "allocation (malloc/calloc/realloc of the daemon, cJSON and zlib included) returning NULL. Oracle: no sanitizer report or crash; start-up failures end in a clean non-zero exit; until the fault the reference model, afterwards at most one response "
           "per request id and none unsolicited; requests sent after the fault's event-loop turn are answered; a fresh client is served at the end; arena, accounted heap, peer count and descriptors are back at the idle baseline after all connections closed and empty at exit. "
@@ -172,7 +173,7 @@ prop("C15", kind="c15", level="fault_enumeration", corpus=46,
           "quick: the whole corpus with every k on the upstream configuration; thorough: the whole corpus on four configuration variants (table sizes, buffer sizes, event-batch size). Second phase (25 s quick, 500 s thorough): random multi-fault runs "
           "(base/c01/c03/c04/c05/c16 plans with 1-4 failing allocations at drawn distances after start-up) and heap-cap runs (variant heapcap, 96 KB: a filler connection takes 55-98 % of the heap, ordinary traffic crosses the cap; the daemon's own refusal is handled like an injected failure). "
           "non-trivial: the failed allocation was reached; a case is a (scenario, k) pair",
-     level_text="single-fault enumeration: for each of 46 corpus scenarios every allocation performed during the run is made to fail in turn (exhaustive for the corpus when the budget suffices; the evidence says whether it did); the daemon's real main() runs on the simulated kernel with the deterministic arena as the fault seam",
+     level_text="single-fault enumeration: for each of 48 corpus scenarios every allocation performed during the run is made to fail in turn (exhaustive for the corpus when the budget suffices; the evidence says whether it did); the daemon's real main() runs on the simulated kernel with the deterministic arena as the fault seam",
      technique="deterministic simulation with fault injection: exhaustive single-allocation-failure enumeration over a scenario corpus, arena allocator as the seam, ledger/model oracles, exact replay",
      nontrivial=[])
 
